@@ -35,7 +35,7 @@ PROPS = {
                  "a view and its parent are modelled as separate records (no aliasing): a MemoryIO used as its own view is covered by the bounded layer on real objects"],
     ),
     "C04": dict(
-        level="exploration",
+        level="proof",
         specs=["specs.c04_minimise"],
         bounded=["bounded.c04_tables"],
     ),
